@@ -663,8 +663,10 @@ def scenarios(rng, tier):
             wd = None
         elif wr < 0.55:
             wd = ''.join(rng.choice('01234567 \t') for _ in range(rng.randint(0, 9)))
-            if rng.random() < 0.1:
-                wd += rng.choice('89x-,')
+            if rng.random() < 0.15:
+                # a stray character anywhere: ranges written with '-', separators, letters, 8 and 9
+                k = rng.randint(0, len(wd))
+                wd = wd[:k] + rng.choice('89x-,.;mM/') + wd[k:]
         else:
             wd = [rng.randint(0, 7) for _ in range(rng.randint(0, 8))]
             if rng.random() < 0.1:
@@ -842,7 +844,16 @@ def oracle(scn, res):
         if wd is None:
             exp = None
         else:
-            nums = [int(c) for c in wd if c not in ' \t'] if isinstance(wd, str) else wd
+            # docs: a string of digits 0-7 (blanks ignored) or a sequence of such numbers; anything else is malformed
+            if isinstance(wd, str):
+                bad = [c for c in wd if c not in ' \t' and c not in '01234567']
+                nums = [int(c) for c in wd if c in '01234567']
+            else:
+                bad = [x for x in wd if not (isinstance(x, int) and 0 <= x <= 7)]
+                nums = [x for x in wd if x not in bad]
+            if bad:
+                return out + [{'clause': 'malformed_rejected',
+                               'what': f'weekdays {wd!r} accepted as {r["weekdays"]!r} although {bad!r} is not a weekday number'}]
             exp = sorted({7 if x == 0 else x for x in nums})
         if r['weekdays'] != exp:
             out.append({'clause': 'weekday_normalisation', 'what': f'weekdays {wd!r} -> {r["weekdays"]!r}, expected {exp!r}'})
